@@ -60,6 +60,9 @@ fn full_atom(rng: &mut Rng) -> Atom {
 fn cnt(rng: &mut Rng) -> usize {
     if rng.chance(1, 7) {
         0
+    } else if rng.chance(1, 6) {
+        // now and then many children: names and numbers repeat inside one container
+        3 + rng.below(3)
     } else {
         1 + rng.below(2)
     }
@@ -371,12 +374,29 @@ fn random_op(rng: &mut Rng, p: &mut PDB) -> (Sx, Sx) {
                     (call("rm_conf_id", vec![path_sx(&path[..3]), s(nm), opt(alt, s), b(par)]), ret)
                 }
                 4 => {
-                    let n = rng.below(12);
+                    // mostly the serial number of an atom of the conformer (they repeat: the first one has to go)
+                    let existing: Vec<usize> = p
+                        .model(path[0])
+                        .and_then(|m| m.chain(path[1]))
+                        .and_then(|c| c.residue(path[2]))
+                        .and_then(|r| r.conformer(path[3]))
+                        .map(|c| c.atoms().map(Atom::serial_number).collect())
+                        .unwrap_or_default();
+                    let n = if !existing.is_empty() && rng.chance(3, 4) { *rng.pick(&existing) } else { rng.below(12) };
                     let ret = on!(get_conformer, 4, |c| b(if par { c.par_remove_atom_by_serial_number(n) } else { c.remove_atom_by_serial_number(n) }));
                     (call("rm_atom_serial", vec![path_sx(&path[..4]), z(n as i128), b(par)]), ret)
                 }
                 _ => {
-                    let nm = *rng.pick(&["CA", "N", "O", "ZN"]);
+                    // mostly the name of an atom of the conformer (names repeat: the first one has to go)
+                    let existing: Vec<String> = p
+                        .model(path[0])
+                        .and_then(|m| m.chain(path[1]))
+                        .and_then(|c| c.residue(path[2]))
+                        .and_then(|r| r.conformer(path[3]))
+                        .map(|c| c.atoms().map(|a| a.name().to_string()).collect())
+                        .unwrap_or_default();
+                    let owned: String = if !existing.is_empty() && rng.chance(3, 4) { rng.pick(&existing).clone() } else { (*rng.pick(&["CA", "N", "O", "ZN"])).to_string() };
+                    let nm = owned.as_str();
                     let ret = on!(get_conformer, 4, |c| b(if par { c.par_remove_atom_by_name(nm) } else { c.remove_atom_by_name(nm) }));
                     (call("rm_atom_name", vec![path_sx(&path[..4]), s(nm), b(par)]), ret)
                 }
